@@ -163,7 +163,7 @@ pub fn survey(a: &Args) {
     let n = ncases(a, 20000, 200000);
     let table: Mutex<BTreeMap<String, (u64, u64, String)>> = Mutex::new(BTreeMap::new());
     let mut dummy = Report::new("C05", "survey", a.seed);
-    let szs = [1usize, 2, 3, 5, 8, 13, 27, 50, 100, 200];
+    let szs: Vec<usize> = std::env::var("VERIF_SURVEY_SIZES").ok().map(|s| s.split(',').filter_map(|x| x.parse().ok()).collect()).unwrap_or_else(|| vec![1usize, 2, 3, 5, 8, 13, 27, 50, 100, 200]);
     run_parallel(&mut dummy, n, 1e9, |k, _| {
         let o = GenOpts {
             sizes: &szs,
